@@ -1,5 +1,5 @@
 // C08: bind "<specifier sequence> x" in a given declaration position and report the bound type and diagnostics.
-// line: "<ctx> <hex of the specifier text>"   ctx: v (variable) p (parameter) f (field) t (typedef)
+// line: "<ctx>[:<hex primer>] <hex of the specifier text>"   ctx: v (variable) p (parameter) f (field) t (typedef) r (parameter, primer = return type) b (block)
 // answer: "<type sexpr of x> <diagnostic ids>"
 #include "sema_common.h"
 
@@ -11,11 +11,16 @@ static int specifiersMain(const std::vector<std::string>&, std::istream& in, std
         auto w = splitWords(line);
         if (w.size() != 2) { out << "bad-case\n"; continue; }
         std::string spec = unhex(w[1]), text;
+        // "<ctx>:<hex primer>": a declaration with the (valid) primer specifiers stands before the probed one, in the same unit / list
+        std::string primer;
+        if (w[0].size() > 2 && w[0][1] == ':') primer = unhex(w[0].substr(2));
         switch (w[0][0]) {
-            case 'v': text = spec + " x;"; break;
-            case 'p': text = "void g(" + spec + " x);"; break;
-            case 'f': text = "struct S { " + spec + " x; };"; break;
-            case 't': text = "typedef " + spec + " x;"; break;
+            case 'v': text = (primer.empty() ? "" : primer + " a; ") + spec + " x;"; break;
+            case 'p': text = "void g(" + (primer.empty() ? "" : primer + " a, ") + spec + " x);"; break;
+            case 'f': text = "struct S { " + (primer.empty() ? "" : primer + " a; ") + spec + " x; };"; break;
+            case 't': text = (primer.empty() ? "" : "typedef " + primer + " a; ") + "typedef " + spec + " x;"; break;
+            case 'r': text = (primer.empty() ? "int" : primer) + " g(" + spec + " x);"; break;          // the primer is the return type
+            case 'b': text = "void g(void) { " + (primer.empty() ? "" : primer + " a; ") + spec + " x; }"; break;
             default: out << "bad-case\n"; continue;
         }
         Analysis a = analyse(text, opts, P_Bind);
